@@ -123,6 +123,15 @@ def valid_templates(tier="quick"):
                           {"op": "duplog", "path": "x", "content": "400", "label": "400 more records of x in the log (long history)"}])
     T.append(_mk("implicit_output", [Variant("v0", st)], {"dd.in": dd3}, ops, [nb], depth, ["produced", "implicit-output"]))
 
+    # D3d: the statement also writes a plain depfile, and -- as compilers that produce module files do -- names all its outputs
+    # in it, the dyndep-supplied one included
+    dd3d = dyndep_text([("out", ["out.mod"], [], False)])
+    o = Stmt("out", ex=["in"], oo=["dd"], dyndep="dd", extra_outs=["out.mod"], hidden=["hdr"], depfile=True)
+    o.dep_all_outs = True
+    st = [Stmt("dd", ex=["dd.in"], copy=True), o, Stmt("top", ex=["out"])]
+    ops, nb = common_ops([{"op": "touch", "path": "dd.in", "label": "touch dd.in"}, {"op": "edit", "path": "hdr", "label": "edit hdr"}])
+    T.append(_mk("depfile_names_the_supplied_output", [Variant("v0", st)], {"dd.in": dd3d}, ops, [nb], depth, ["produced", "implicit-output", "depfile"]))
+
     # D4: one dyndep file shared by two statements
     dd4 = dyndep_text([("out", [], ["x"], False), ("out2", [], [], False)])
     st = [Stmt("dd", ex=["dd.in"], copy=True), Stmt("x", ex=["s"]),
